@@ -47,6 +47,28 @@ CLAIMS = {
             "length 0..=255 is recorded from the real code and validated by TLC.",
             "Trusted: TLC, Message.tla, Frame.tla. Injectivity on the real code follows from the per-message round trip.",
             "DESIGN.md section 5 C05", TECH_MGV),
+    "C12": ("model_checking",
+            "VirtualSign.tla is a total step function (TLC evaluates every alphabet message in every reachable state of the bounded model, so the "
+            "design has no crashing history); every one of those transitions is delivered to a real VirtualSign under catch_unwind; long random "
+            "walks over a wide adversarial alphabet on single signs and on buses of 1..4 signs, and directed lost/short/extra/duplicated-chunk and "
+            "wrong-count transfers for all 11 sign types (plus the 65536+5-chunk counter wrap in thorough), are recorded and checked by a "
+            "reference-free TLC monitor: no panic, and a count announcement to a receiving sign ends in received/failed.",
+            "Trusted: TLC, catch_unwind as panic detector, overflow checks enabled in the harness profile. Walks are random (seeded), not exhaustive.",
+            "DESIGN.md section 5 C12", TECH_MGV),
+    "C13": ("model_checking",
+            "VirtualSign.tla is the documented sign-side state machine. TLC checks its invariants and per-step behaviour on the bounded model for both "
+            "flip styles; TLC's state graph (one witness path per distinct state, every alphabet edge) is replayed into a real VirtualSign comparing "
+            "reply and state()/sign_type()/pages() after every step; in the other direction a breadth-first search over the implementation's own "
+            "Hash/Eq state, random walks and directed transfers on real sign sizes are validated event by event by TLC against Step.",
+            "Trusted: TLC, the transcription of the documented state machine. Bounds on buffered bytes/pages/counter (model) and chunks per transfer (impl BFS).",
+            "DESIGN.md section 5 C13", TECH_MGV),
+    "C14": ("model_checking",
+            "Bus.tla composes signs; TLC checks AddressedIsolation and UnaddressedOnlyReceiving for every alphabet message in every reachable state of "
+            "an exhaustive 2-sign model (both signs mid-transfer at once is reachable) and on simulated 3-/4-sign behaviours; the model's witness "
+            "paths drive a real VirtualSignBus into each model state where the C14 relations are checked against solo clones of the real signs; "
+            "random interleavings on 1..4 real signs are validated by the reference-free TLC monitor Trace_Monitor!Isolation.",
+            "Trusted: TLC. The check is reference-free on purpose: a change of a single sign's behaviour that keeps isolation is C13's finding, not C14's.",
+            "DESIGN.md section 5 C14", TECH_MGV),
 }
 
 
